@@ -163,6 +163,14 @@ func (v *list_[V]) InsertValue(slot uint, value V) {
 
 func (v *list_[V]) InsertValues(slot uint, values Sequential[V]) {
 
+	// Validate the slot.
+	if slot > uint(v.GetSize()) {
+		panic(fmt.Sprintf(
+			"The specified slot is outside the allowed range [0..%v]: %v",
+			v.GetSize(),
+			slot))
+	}
+
 	// Create a new larger array.
 	var size = uint(v.GetSize() + values.GetSize())
 	var array = Array[V](v.GetClass().Notation()).Make(size)
@@ -170,8 +178,10 @@ func (v *list_[V]) InsertValues(slot uint, values Sequential[V]) {
 	// Copy the values into the new array.
 	var iterator = v.GetIterator()
 	var index int
+	var inserted bool
 	for index < int(size) {
-		if index == int(slot) {
+		if index == int(slot) && !inserted {
+			inserted = true
 			var iterator2 = values.GetIterator()
 			for iterator2.HasNext() {
 				index++
